@@ -42,9 +42,10 @@ def _some0(rng, lo, hi, kmax):
     return sorted(set(rng.randint(lo, hi) for _ in range(rng.randint(1, kmax))))
 
 
-def gen_rule(rng, dtstart, freq=None, big_times=False, numbered_limit=0.0):
+def gen_rule(rng, dtstart, freq=None, big_times=False, numbered_limit=0.0, yearly_combos=0.0):
     """a well-formed rule of the supported language fitting the DTSTART's value type; numbered_limit: probability that BYDAY
-    carries ordinals where it acts as a limit (next to BYMONTHDAY / BYYEARDAY)"""
+    carries ordinals where it acts as a limit (next to BYMONTHDAY / BYYEARDAY); yearly_combos: probability that a YEARLY rule
+    combines BYWEEKNO or BYYEARDAY with BYMONTH / BYMONTHDAY / each other"""
     freq = freq or rng.choice(FREQS)
     allday = dtstart[3] is None
     if allday and freq in ("HOURLY", "MINUTELY", "SECONDLY"):
@@ -55,6 +56,8 @@ def gen_rule(rng, dtstart, freq=None, big_times=False, numbered_limit=0.0):
     p = rng.random
     if freq == "YEARLY":
         shape = rng.choice(["plain", "mon", "mon+md", "md", "yd", "wk", "wk+dow", "dow", "mon+dow", "md+dow", "yd+dow", "mon+md+dow"])
+        if p() < yearly_combos:
+            shape = rng.choice(["mon+wk", "mon+wk+dow", "mon+yd", "yd+md", "wk+md+dow", "wk+yd", "mon+yd+dow", "wk+md"])
         if "mon" in shape:
             r.bymonth = _some(rng, 1, 12, 3)
         if "md" in shape.split("+"):
@@ -63,8 +66,20 @@ def gen_rule(rng, dtstart, freq=None, big_times=False, numbered_limit=0.0):
             r.byyearday = _some(rng, 1, 366, 3, neg=True)
         if "wk" in shape:
             r.byweekno = _some(rng, 1, 53, 3, neg=True)
+        if shape in ("mon+wk", "mon+wk+dow", "mon+yd", "yd+md", "wk+md+dow", "wk+yd", "mon+yd+dow", "wk+md") and p() < 0.6:
+            # parts that can meet: built around one date
+            import datetime as _d
+            x = _d.date(rng.choice([2023, 2024, 2026]), rng.randint(1, 12), rng.randint(1, 28))
+            if r.bymonth:
+                r.bymonth = sorted(set(r.bymonth[:1] + [x.month]))
+            if r.bymonthday:
+                r.bymonthday = sorted(set(r.bymonthday[:1] + [x.day]))
+            if r.byyearday:
+                r.byyearday = sorted(set(r.byyearday[:1] + [x.timetuple().tm_yday, x.timetuple().tm_yday + 1]))
+            if r.byweekno:
+                r.byweekno = sorted(set(r.byweekno[:1] + [x.isocalendar()[1]]))
         if "dow" in shape:
-            plain = shape == "wk+dow" or (shape in ("md+dow", "yd+dow", "mon+md+dow") and not p() < numbered_limit) or p() < 0.4
+            plain = "wk" in shape or (shape in ("md+dow", "yd+dow", "mon+md+dow", "mon+yd+dow") and not p() < numbered_limit) or p() < 0.4
             omax = 5 if "mon" in shape else 53
             r.byday = []
             for _ in range(rng.randint(1, 3)):
